@@ -20,14 +20,16 @@ if [ -z "$DEST" ] || [ -z "$CMD" ]; then echo "CANNOT PARSE HOWTO ($DEST | $CMD)
 echo "demo -> $DEST ; cmd: $CMD"
 if ! git apply "$SRC/patch.diff"; then echo "RESULT $ID: patch does not apply to HEAD"; exit 1; fi
 if ! go build ./... ; then echo "RESULT $ID: does not build"; exit 1; fi
-cp "$SRC/$DEMO" "$DEST"
-if (eval "timeout 600 $CMD") > /tmp/cm/$ID.demo_with.log 2>&1; then echo "RESULT $ID: demo PASSES with the patch (not a demonstration)"; exit 1; fi
+mkdir -p "$(dirname "$DEST")"
+cp "$SRC/$DEMO" "$DEST" || { echo "RESULT $ID: cannot place the demo"; exit 2; }
+if (eval "timeout 900 $CMD") > /tmp/cm/$ID.demo_with.log 2>&1; then echo "RESULT $ID: demo PASSES with the patch (not a demonstration)"; exit 1; fi
 if grep -q 'no tests to run' /tmp/cm/$ID.demo_with.log; then echo "RESULT $ID: demo did not run (no tests to run)"; exit 1; fi
+if grep -qE 'directory not found|no such file|build failed|cannot find package|setup failed' /tmp/cm/$ID.demo_with.log; then echo "RESULT $ID: demo did not build/run with the patch"; tail -3 /tmp/cm/$ID.demo_with.log; exit 1; fi
 echo "demo fails with patch: ok"
 rm -f "$DEST"
 SUITE="skipped"
 if [ -z "$NOSUITE" ]; then
-  go test -mod=mod -json -vet=off -count=1 -timeout 25m ./... > /tmp/cm/$ID.suite.json 2>/dev/null
+  go test -mod=mod -json -vet=off -count=1 -timeout ${SUITE_TIMEOUT:-25m} ./... > /tmp/cm/$ID.suite.json 2>/dev/null
   SUITE=$(python3 - /tmp/cm/$ID.suite.json <<'PY'
 import json,sys
 passed=set()
@@ -45,8 +47,9 @@ PY
   rm -f /tmp/cm/$ID.suite.json
 fi
 git checkout -q -- . ; git clean -fdq
+mkdir -p "$(dirname "$DEST")"
 cp "$SRC/$DEMO" "$DEST"
-if ! (eval "timeout 600 $CMD") > /tmp/cm/$ID.demo_without.log 2>&1; then echo "RESULT $ID: demo FAILS without the patch"; tail -5 /tmp/cm/$ID.demo_without.log; exit 1; fi
+if ! (eval "timeout 900 $CMD") > /tmp/cm/$ID.demo_without.log 2>&1; then echo "RESULT $ID: demo FAILS without the patch"; tail -5 /tmp/cm/$ID.demo_without.log; exit 1; fi
 echo "demo passes without patch: ok"
 mkdir -p /verif/seeded/$ID
 cp "$SRC/patch.diff" /verif/seeded/$ID/patch.diff
